@@ -381,10 +381,9 @@ def run(case, out):
                     if gotp != expp:
                         out.fail("c10.vector_positions", {"doc": i, "got": str(gotp)[:200], "expected": str(expp)[:200]})
                         return
-                # weights: the transposed posting weights (the document boost multiplies the posting weight only
-                # after the vector has been cut, so documents with a boost are not compared here)
-                if d["boost"] == 1.0:
-                    fbv = case["field_boost"]
+                # weights: the transposed posting weights, document boost included
+                if True:
+                    fbv = case["field_boost"] * d["boost"]
                     gotw = dict((t.decode("utf8") if isinstance(t, bytes) else t, v)
                                 for t, v in reader.vector_as("weight", i, "f"))
                     expw = dict((t, f32(fbv if vname == "Existence" else
@@ -393,8 +392,6 @@ def run(case, out):
                         out.fail("c10.vector_weight", {"doc": i, "got": str(sorted(gotw.items()))[:200],
                                                        "expected": str(sorted(expw.items()))[:200], "vformat": vname})
                         return
-                else:
-                    out.exclude("vector_weight_of_boosted_document")
                 if vname != "Existence":
                     gotf = dict((t.decode("utf8") if isinstance(t, bytes) else t, v)
                                 for t, v in reader.vector_as("frequency", i, "f"))
